@@ -7,6 +7,7 @@
      M,t,r0,c0,r1,c1       merge_cells
      RD,t,r,c              cell(r, c)
      IR,t,r0,r1,c0,c1      iter_rows(min_row,max_row,min_col,max_col)      IC,t,c0,c1,r0,r1   iter_cols
+     RN,t,name             rename table t (no effect on any grid)
      D,t                   dump of table t           RO,t   dump of the table after save + reopen
    one result per op, joined by '|'. *)
 From Coq Require Import ZArith NArith List Bool.
@@ -63,6 +64,7 @@ Definition step (ts : list table) (op : list (list N)) : list table * list N :=
       query ts (str_to_Z t) (fun x => match read x (str_to_Z r) (str_to_Z c) with Ok y => show_cell y | Err e => show_err e end)
   | [[73%N; 82%N]; t; a; b; c; d] => query ts (str_to_Z t) (fun x => show_rows (iter_rows x (oz a) (oz b) (oz c) (oz d)))
   | [[73%N; 67%N]; t; a; b; c; d] => query ts (str_to_Z t) (fun x => show_rows (iter_cols x (oz a) (oz b) (oz c) (oz d)))
+  | [[82%N; 78%N]; _; _] => (ts, ok_s)          (* rename: names are not part of the grid; every table keeps its content *)
   | [[68%N]; t] => query ts (str_to_Z t) dump
   | [[82%N; 79%N]; t] => query ts (str_to_Z t) (fun x => dump (reopen x))
   | _ => (ts, [63%N])
